@@ -5,6 +5,9 @@ From NV Require Export Gen.GenTables Gen.GenScore Gen.GenStdUnicode.
 Import ListNotations.
 Local Open Scope N_scope.
 
+(* linear-time list reversal (List.rev is quadratic); rev_alt : rev l = rev_append l [] *)
+Definition frev {A} (l : list A) : list A := rev_append l [].
+
 (* crate::Config *)
 Record config := {
   ignore_case : bool;
